@@ -27,7 +27,9 @@ def critName : Criterion → String
 /-- build the stopper as the code does (`deprecated` selects `VarianceBasedEarlyStopping`) -/
 def build (j : Json) : R (Except PyErr (EarlyStopping Float)) := do
   let ps ← jInt (← fld j "ps")
-  let tol ← jFloat (← fld j "tol")
+  let tolF ← jFloat (← fld j "tol")
+  -- `float("inf")` is the model's `none`
+  let tol : Option Float := if tolF == 1.0 / 0.0 then none else some tolF
   let pat ← parsePat (← fld j "patience")
   let ek ← parseEk (← jStr (← fld j "ek"))
   let name ← jStr (← fld j "name")
